@@ -605,6 +605,7 @@ func (u *Unit) evalComposite(e *ast.CompositeLit, st *State, addr bool) Val {
 		return Val{T: fmt.Sprintf("(mk_%s %s %d false)", srt, arr, len(e.Elts)), S: srt, GT: t, Elems: elems}
 	case *types.Map:
 		r := u.newRef(st, "map")
+		u.mapTypeFact(st, r, t)
 		m := Val{T: r, S: "Int", GT: t}
 		ks := u.reg.sortOf(ut.Key())
 		vs := u.reg.sortOf(ut.Elem())
